@@ -151,7 +151,7 @@ class Replay:
                         f = inflow * 0.0
                     else:
                         with np.errstate(all="ignore"):
-                            f = inflow * p / s
+                            f = inflow * (p / s)  # normalise the proportion first (a denormal proportion times the inflow would underflow)
                 if grouped:
                     f = np.asarray(f, dtype=float)
                     pbins[l] = f
